@@ -2,6 +2,16 @@
 """Regenerates MANIFEST.json from the table below (run after adding a property)."""
 import json, subprocess
 CLAIMED = {
+ "C09": dict(
+   text="Metamorphic testing, implementation against itself: generated programs (four IR generators) and the repository's program texts are re-rendered under random layouts (keyword and identifier case, blanks/tabs, blank lines, comment lines and trailing comments, colon joins against separate lines, LF/CRLF/CR, final newline); the parsed tree modulo positions/comments/case, the verdict class and the behaviour (output, error code) must be unchanged; negative relations (a label attached to another statement, a comment containing code, blanks inside words) must change the result.",
+   note="Trusted: the IR printer's layout knobs produce only the variations the statement lists; the tree normaliser (positions, comment lists, letter case of names folded).",
+   technique="proptest program generation + metamorphic layout relation (tree, verdict and behaviour equality)",
+   design="6/C09"),
+ "C12": dict(
+   text="Three generated-input searches: (a) checker-accepted programs of the wide generator, two thirds with wrongly typed sub-expressions planted in parentheses / argument lists / subscripts / CASE and PRINT lists and without statements converting external data, must never raise Type mismatch (13) nor a wrong-kind failure at run time; (b) consistent renaming of every user identifier keeps verdict class, output, error code and row; (c) one ill-typing edit (string operand at any expression depth, extra argument, by-reference type, duplicate CONST, NEXT with another counter) of an accepted program must be rejected with the matching error family inside the edited statement.",
+   note="Trusted: the IR printer's site map; refsem's static typing to pick numeric operands; the family table in the evidence assumptions.",
+   technique="proptest program generation + validity oracle (soundness), metamorphic renaming relation, mutation of accepted programs with a rejection oracle",
+   design="6/C12"),
  "C07": dict(
    text="Robustness fuzzing of parse + check: random bytes, token soups with grammar-biased transitions, noisy statement grammars, typed near-valid programs, token/byte mutations and splices of the repository's ~700 program texts, every prefix of those programs, and 31 deep-nesting constructs up to depth 300; oracle = returns without panic / process death / CPU overrun, with a program or exactly one error whose position is valid for the text by an independent line splitter.",
    note="Trusted: the harness's own line/column model; the worker process model (8 MiB stack like the real binary's main thread) for stack overflows; a 120 CPU-s bound stands in for 'bounded time'.",
